@@ -146,7 +146,8 @@ class BuiltinMixin:
             raise Unsupported('iteration over a symbolic map of unknown size (needs a loop rule or a contract)')
         kind = o.fields['kind']
         for k in list(keys):
-            v = View(mref.oid, zint(k), '', m.elem_cls) if m.elem_cls is not None else None
+            v = View(mref.oid, zint(k), '', m.elem_cls) if m.elem_cls is not None else \
+                (self.getitem(mref, k, node) if kind != 'keys' else None)
             if kind == 'keys':
                 yield k
             elif kind == 'values':
@@ -157,6 +158,9 @@ class BuiltinMixin:
     def extern_iter_obj(self, ref, o, node):
         if o.cls == 'map-iter':
             return self.iter_map_view(o, node)
+        if o.cls in ('mapping-items', 'mapping-keys'):
+            # collections.abc ItemsView / KeysView: `for key in mapping: yield (key, mapping[key])`
+            return self.iter_mapping_view(o, node)
         f = EXTERN_METHODS.get((o.cls if not isinstance(o.cls, extract.ClassInfo) else None, '__iter__'))
         if f:
             return f(self, ref, o, [], {}, node)
@@ -165,7 +169,18 @@ class BuiltinMixin:
             nx = self.P.lookup_method(o.cls, '__next__')
             if it is not None and nx is not None:
                 return self.iter_protocol(ref, nx, node)
+            if it is not None:
+                # __iter__ that delegates to another iterable (Settings.__iter__ -> dict.__iter__)
+                return self.iter_values(self.call_function(it, [ref], {}, node), node)
         return NotImplemented
+
+    def iter_mapping_view(self, o, node):
+        mp = o.fields['mapping']
+        for k in list(self.iter_values(mp, node)):
+            if o.cls == 'mapping-keys':
+                yield k
+            else:
+                yield (k, self.getitem(mp, k, node))
 
     def iter_protocol(self, ref, nx, node):
         """for x in obj  with user-defined __next__ raising StopIteration."""
@@ -643,6 +658,8 @@ class BuiltinMixin:
             return args[1] if len(args) > 1 else None
         if name in ('values', 'items', 'keys'):
             return self.heap.alloc(Obj('map-iter', {'map': ref, 'kind': name}))
+        if name == '__iter__':
+            return self.heap.alloc(Obj('map-iter', {'map': ref, 'kind': 'keys'}))
         raise Unsupported('map.' + name)
 
     # ------------------------------------------------------------------
